@@ -156,28 +156,49 @@ where
                 //   v = w / u  =>  [wmin / umax .. wmax / umin]
                 //
                 // The constraint is not dropped until all variables converge into numbers.
-                Ok(state
-                    .process_domain(
-                        &wwalk,
-                        Rc::new(FiniteDomain::from(
-                            umin.saturating_mul(vmin)..=umax.saturating_mul(vmax),
-                        )),
-                    )?
-                    .process_domain(
-                        &uwalk,
-                        Rc::new(FiniteDomain::from(
-                            wmin.checked_div(vmax).unwrap_or(umin)
-                                ..=wmax.checked_div(vmin).unwrap_or(umax),
-                        )),
-                    )?
-                    .process_domain(
-                        &vwalk,
-                        Rc::new(FiniteDomain::from(
-                            wmin.checked_div(umax).unwrap_or(vmin)
-                                ..=wmax.checked_div(umin).unwrap_or(vmax),
-                        )),
-                    )?
-                    .with_constraint(self))
+                // The product of two ranges is bounded by its four corner products; which
+                // corner is the smallest depends on the signs.
+                let corners = [
+                    umin.saturating_mul(vmin),
+                    umin.saturating_mul(vmax),
+                    umax.saturating_mul(vmin),
+                    umax.saturating_mul(vmax),
+                ];
+                let pmin = *corners.iter().min().unwrap();
+                let pmax = *corners.iter().max().unwrap();
+                let mut state =
+                    state.process_domain(&wwalk, Rc::new(FiniteDomain::from(pmin..=pmax)))?;
+
+                // The quotient bounds below are only valid for strictly positive factors and a
+                // non-negative product; with other signs the factors are left to labeling.
+                if umin >= 1 && vmin >= 1 && wmin >= 0 {
+                    state = state
+                        .process_domain(
+                            &uwalk,
+                            Rc::new(FiniteDomain::from(
+                                wmin.checked_div(vmax).unwrap_or(umin)
+                                    ..=wmax.checked_div(vmin).unwrap_or(umax),
+                            )),
+                        )?
+                        .process_domain(
+                            &vwalk,
+                            Rc::new(FiniteDomain::from(
+                                wmin.checked_div(umax).unwrap_or(vmin)
+                                    ..=wmax.checked_div(umin).unwrap_or(vmax),
+                            )),
+                        )?;
+                }
+
+                // Narrowing may have bound an operand of this constraint to a value. The bounds
+                // above were computed before that: propagate again with the new values.
+                if [uwalk, vwalk, wwalk]
+                    .iter()
+                    .any(|t| t.is_var() && state.smap_ref().contains_key(t))
+                {
+                    self.run(state)
+                } else {
+                    Ok(state.with_constraint(self))
+                }
             }
             // If all operators do not yet have domains, then keep the constraint until it can
             // be used to constrain some domains.
